@@ -384,8 +384,9 @@ package kvql
 //@   ghost k B
 //@   assigns elems(keys)
 //@   ensures kind: is(plan, *MultiGetPlan) && fresh(plan)
-//@   ensures fields: as(plan, *MultiGetPlan).Storage == s && as(plan, *MultiGetPlan).Filter == f && as(plan, *MultiGetPlan).idx == 0 && as(plan, *MultiGetPlan).numKeys == len(keys) && as(plan, *MultiGetPlan).Keys == keys
-//@   ensures[C02] perm: member(keys, len(keys), k) == old(member(keys, len(keys), k))
+//@   ensures fields: as(plan, *MultiGetPlan).Storage == s && as(plan, *MultiGetPlan).Filter == f && as(plan, *MultiGetPlan).idx == 0 && as(plan, *MultiGetPlan).numKeys == len(as(plan, *MultiGetPlan).Keys) && ptr(as(plan, *MultiGetPlan).Keys) == ptr(keys) && off(as(plan, *MultiGetPlan).Keys) == off(keys) && len(as(plan, *MultiGetPlan).Keys) <= len(keys)
+//@   ensures[C02] perm: member(as(plan, *MultiGetPlan).Keys, len(as(plan, *MultiGetPlan).Keys), k) == old(member(keys, len(keys), k))
+//@   ensures[C01] once: forall j Int :: 0 <= j && j + 1 < len(as(plan, *MultiGetPlan).Keys) ==> val(as(plan, *MultiGetPlan).Keys[j]) < val(as(plan, *MultiGetPlan).Keys[j + 1])
 //
 //@ func (o *FilterOptimizer) Optimize() (plan Plan)
 //@   props C02 C18
